@@ -81,7 +81,7 @@ Proof. reflexivity. Qed.
 
 Lemma step_esc : lex_step (LGround []) ESC = Some (LEsc, []). Proof. reflexivity. Qed.
 Lemma step_lbr : lex_step LEsc LBR = Some (LCsi None, []). Proof. reflexivity. Qed.
-Lemma step_A v : lex_step (LCsi (Some v)) CHA = Some (LGround [], [TUp v]). Proof. reflexivity. Qed.
+Lemma step_A v : lex_step (LCsi (Some v)) CHA = Some (LGround [], [TUp (Z.max 1 v)]). Proof. reflexivity. Qed.
 Lemma step_J : lex_step (LCsi None) CHJ = Some (LGround [], [TErase]). Proof. reflexivity. Qed.
 
 Lemma lex_item i : wf_item i -> forall rest,
@@ -96,6 +96,7 @@ Proof.
     rewrite lex_cons, step_esc, lex_cons, step_lbr.
     rewrite (lex_digits ds None D). destruct ds as [|d ds']; [congruence|]. rewrite V.
     rewrite lex_cons, step_A, lex_cons, step_esc, lex_cons, step_lbr, lex_cons, step_J.
+    rewrite (Z.max_r 1 n) by lia.
     destruct (lex (LGround []) rest) as [[s t]|]; reflexivity.
   - rewrite (lex_app (l ++ [LF]) (LGround []) rest (LGround []) [TLine l]).
     + destruct (lex (LGround []) rest) as [[s t]|]; reflexivity.
@@ -164,3 +165,29 @@ Section Render.
     exists toks. split; [exact L|]. rewrite S, render_frame. reflexivity.
   Qed.
 End Render.
+
+(* ---------- why the writer never sends "cursor up 0" ---------- *)
+(* A terminal reads a zero parameter as the default, 1: on a window of at least two rows the bytes ESC [ 0 A ESC [ J erase the line
+   above the cursor — a line that was meant to persist when no live row is on the screen.  cwriter's Flush therefore writes the
+   sequence only for a positive number of live rows (Term.cuu_items, below). *)
+Theorem cuu_zero_erases_a_line h above l : 2 <= h ->
+  exists toks, lex (LGround []) (encode_item (VCuu 0)) = Some (LGround [], toks) /\
+               fold_left (tok_step h) toks (above ++ [l], []) = (above, []).
+Proof.
+  intros H. exists [TUp 1; TErase]. split; [reflexivity|].
+  cbn [fold_left tok_step]. replace (Z.min 1 (Z.max 0 (h - 1))) with 1 by lia.
+  rewrite app_length. cbn [length]. change (Z.to_nat 1) with 1%nat.
+  replace (length above + 1 - 1)%nat with (length above) by lia.
+  rewrite firstn_app, Nat.sub_diag, firstn_all. cbn [firstn]. rewrite app_nil_r. reflexivity.
+Qed.
+
+(* nothing live on the screen: no cursor control in front of the next frame at all *)
+Lemma no_cursor_up_without_live_rows k : k <= 0 -> Term.cuu_items k = [].
+Proof. intros H. unfold Term.cuu_items. destruct (Z.ltb_spec 0 k); [lia|reflexivity]. Qed.
+
+(* and what is sent for k > 0 live rows is inside the fragment the terminal reads back (k below 10^20) *)
+Lemma cursor_up_items_wf (bytes : item -> list Z) k : k < 10 ^ 20 -> Forall wf_item (map (render bytes) (Term.cuu_items k)).
+Proof.
+  intros H. unfold Term.cuu_items. destruct (Z.ltb_spec 0 k); cbn [map render]; [|constructor].
+  constructor; [|constructor]. cbn [wf_item]. lia.
+Qed.
